@@ -70,3 +70,22 @@ Proof.
   rewrite C05.Proofs.chk_sub_ok by (change (2 ^ 64) with 18446744073709551616; unfold two32 in H; lia).
   eexists. split; [reflexivity|lia].
 Qed.
+
+(* ---- round 5: MinidumpInfo::new.  Run over the table of stream reads the translator extracts (source order): the first failed
+   read that is turned into a ProcessError decides; the model's two tests are exactly that, whatever the other streams do. *)
+Fixpoint first_failure (ok : gen_stream -> bool) (l : list (gen_stream * option gen_process_error)) : option gen_process_error :=
+  match l with
+  | [] => None
+  | (s, Some e) :: t => if ok s then first_failure ok t else Some e
+  | (_, None) :: t => first_failure ok t
+  end.
+Definition to_gen_error (e : process_error) : gen_process_error :=
+  match e with MissingThreadList => GE_MissingThreadList | MissingSystemInfo => GE_MissingSystemInfo end.
+Lemma info_new_from_source : forall ok,
+  first_failure ok gen_stream_handling =
+  option_map to_gen_error (info_new (ok GS_MinidumpThreadList) (ok GS_MinidumpSystemInfo)).
+Proof. intros ok. cbn. unfold info_new. destruct (ok GS_MinidumpThreadList), (ok GS_MinidumpSystemInfo); reflexivity. Qed.
+Lemma optional_streams_cannot_fail : forall ok ok',
+  ok GS_MinidumpThreadList = ok' GS_MinidumpThreadList -> ok GS_MinidumpSystemInfo = ok' GS_MinidumpSystemInfo ->
+  first_failure ok gen_stream_handling = first_failure ok' gen_stream_handling.
+Proof. intros ok ok' H1 H2. rewrite !info_new_from_source, H1, H2. reflexivity. Qed.
